@@ -33,7 +33,7 @@ def main(tier):
         c.exhaustive = False
         c.notes.append('harness errors: %s' % sorted(set(v['sig'] for v in harness)))
 
-    nops = 26
+    nops = 27
     pairs = fam['evaluated'] * nops
     states = int(c.counters.get('states', 0))
     transitions = int(c.counters.get('transitions', 0))
@@ -51,7 +51,7 @@ def main(tier):
             'service probes take the model returned by the latest parse of the same document in this history, else an API-built twin; the selftest family proves every twin indistinguishable from a fresh strict parse for every service probe',
             'a service probe whose ARGUMENT differs from the fresh one (it came out of an earlier, already judged, call of the history) is judged in the counterfactual world only',
             'Importer::resolveImports and Annotator::assignAllIds mutate their model by contract: no frame condition is judged for them; the annotator probe works on a private model with a fresh Annotator',
-            'generate probes analyse with a fresh Analyser and use the shared Generator',
+            'generate probes (C, Python, C with power operator) all work on ONE AnalyserModel per world, obtained from an own Analyser and held; its dump includes every equation AST with the parent-link consistency of every node',
             'the asan sub-family covers histories of length <= 1 only',
         ],
         extra_cov={'states': states, 'transitions': transitions, 'traces_validated_against_impl': transitions + fam['evaluated'],
